@@ -1,6 +1,7 @@
 package props
 
 import (
+	"bytes"
 	"context"
 	"errors"
 	"fmt"
@@ -140,6 +141,23 @@ func c14RPC(w *env.World, d *env.Direct, kind, outcome, tag string) {
 		runOps(r, cs, "S", never, &log, &n)
 		d.Pipe.A.FailNextWrites = 1
 		runOps(r, cs, "SR", never, &log, &n)
+	case outcome == "cancelinsend":
+		// the cancellation lands while a SendMsg is inside the transport write, and the stream's
+		// own goroutines react to it before that write returns (both ways the write may end -
+		// accepted or given up - are explored as select alternatives)
+		prev := d.Pipe.A.OnWrite
+		marker := []byte(tag + ".m1")
+		d.Pipe.A.OnWrite = func(k int, rpc *env.Rpc) {
+			if prev != nil {
+				prev(k, rpc)
+			}
+			if b := rpc.GetBody(); b != nil && bytes.Contains(b.GetData(), marker) {
+				cancel()
+				vsched.Yield("cancelled-in-write")
+			}
+		}
+		runOps(r, cs, "SSR", never, &log, &n)
+		d.Pipe.A.OnWrite = prev
 	case outcome == "cancelsend":
 		// the caller cancels and immediately tries to send
 		runOps(r, cs, "S", never, &log, &n)
@@ -176,14 +194,14 @@ func c14RPC(w *env.World, d *env.Direct, kind, outcome, tag string) {
 func c14(tier string) []*explore.Scenario {
 	var out []*explore.Scenario
 	kinds := []string{"Unary", "Bidi", "SStream", "CStream"}
-	outcomes := []string{"ok", "herr", "cancel0", "cancel1", "cancel2", "cancel3", "deadline", "reset", "lateempty", "openfail", "sendfail", "cancelsend"}
+	outcomes := []string{"ok", "herr", "cancel0", "cancel1", "cancel2", "cancel3", "deadline", "reset", "lateempty", "openfail", "sendfail", "cancelsend", "cancelinsend"}
 	bound := 1
 	if tier == "thorough" {
 		bound = 2
 	}
 	for _, k := range kinds {
 		for _, o := range outcomes {
-			if k == "Unary" && (o == "reset" || o == "lateempty" || o == "sendfail" || (strings.HasPrefix(o, "cancel") && o != "cancel0")) {
+			if k == "Unary" && (o == "reset" || o == "lateempty" || o == "sendfail" || o == "cancelinsend" || (strings.HasPrefix(o, "cancel") && o != "cancel0")) {
 				continue
 			}
 			out = append(out, c14One([][2]string{{k, o}}, bound))
